@@ -42,10 +42,11 @@ UnitsCovering(a, e) == IF LeA(e, a) THEN {} ELSE
 \* units completely inside [a, e)
 UnitsInside(a, e) == (IF a[2] % U64K = 0 THEN UnitOf(a) ELSE UnitOf(a) + 1) .. (UnitOf(e) - 1)
 
-OsInit ==
+OsInitWith(shim) ==
   /\ maps = {} /\ now = 0 /\ round = 1 /\ dirtyU = {} /\ cand = {} /\ t0set = FALSE /\ lastInuse = {}
-  /\ refusedU = {} /\ prevQ = <<0, 0>> /\ oscfg = [shim |-> FALSE, purge_delay |-> 10, segmap_part |-> 0]
+  /\ refusedU = {} /\ prevQ = <<0, 0>> /\ oscfg = [shim |-> shim, purge_delay |-> 10, segmap_part |-> 0]
   /\ ostep = 0
+OsInit == OsInitWith(FALSE)
 
 \* ---- interval bookkeeping
 MaxA(a, b) == IF LtA(a, b) THEN b ELSE a
